@@ -17,18 +17,23 @@ def _nontrivial(recs):
     return unav and tick and served
 
 
+# configurations that issue only some operations (constant Ops) cannot take the actions of the others;
+# MC_TrackerServer_thorough.cfg issues all of them and must cover every action
+_NOT_STORE = ("ACall", "PSUpdate", "PSGet", "ARet", "MCall", "MiTry", "MRet", "RCall", "Probe", "RRet", "Health", "BadReq")
+_NOT_ANN = ("MCall", "MiTry", "MRet", "RCall", "Probe", "RRet", "Health", "BadReq")
+
 PROP = dict(
     specdir="tracker", engine="x02",
     mc=[dict(module="TrackerServerMC", cfg="MC_TrackerServer.cfg", tiers=("quick",)),
         dict(module="TrackerServerMC", cfg="MC_TrackerServer_conc.cfg", tiers=("quick",)),
         dict(module="TrackerServerMC", cfg="MC_TrackerServer_thorough.cfg", tiers=("thorough",)),
-        dict(module="TrackerServerMC", cfg="MC_TrackerServer_store_thorough.cfg", tiers=("thorough",)),
-        dict(module="TrackerServerMC", cfg="MC_TrackerServer_conc_thorough.cfg", tiers=("thorough",)),
+        dict(module="TrackerServerMC", cfg="MC_TrackerServer_store_thorough.cfg", tiers=("thorough",), allow_dead=_NOT_STORE),
+        dict(module="TrackerServerMC", cfg="MC_TrackerServer_conc_thorough.cfg", tiers=("thorough",), allow_dead=_NOT_ANN),
         dict(module="TrackerServerMC", cfg="MC_TrackerServer_conc3_thorough.cfg", tiers=("thorough",), coverage=False),
         dict(module="TrackerServerMC", cfg="MC_TrackerServer_live.cfg", tiers=("thorough",), coverage=False)],
     trace=dict(module="TrackerServerTrace", cfg="TrackerServerTrace.cfg", deque=True),
     isolate=lambda head: (head.get("cfg") or {}).get("fam") == "probe",
-    chunk_lines=3000, max_rejections=6,
+    chunk_lines=8000, max_rejections=6,
     nontrivial=_nontrivial,
     min_nontrivial=20,
     engine_timeout={"quick": 600, "thorough": 1500},
